@@ -199,11 +199,11 @@ def runs_part(ctx):
                         ('run-sequence:' + '->'.join(sorted({("hooked" if c != "off" else "off") for c, e in hist[:k + 1]}))), rep)
             want = fresh[(cname, ver)]
             if res != want:
-                # which earlier run wrote the cache entry that is being reused?
-                stale_from = [c for c in prev if c != 'off' and shape_class(c) != shape_class(cname)]
-                cls = 'stale-cache-across-AST-shaping-options' if cname != 'off' and stale_from and not any(e for c, e in hist[:k + 1]) else f'behaviour:{hs}:step{k}'
-                if cname != 'off' and stale_from and any(e for c, e in hist[1:k + 1]):
-                    cls = f'behaviour-after-edit:{hs}:step{k}'
+                # which earlier run wrote the cache entry that is being reused?  Only runs on the *current* source version
+                # count (an edit invalidates older entries): the first hooked one of them wrote the marked file
+                same_ver = [c for (c, v, _r, _f) in out[:k] if v == ver and c != 'off']
+                stale_from = [c for c in same_ver[:1] if shape_class(c) != shape_class(cname)]
+                cls = 'stale-cache-across-AST-shaping-options' if cname != 'off' and stale_from else f'behaviour:{hs}:step{k}'
                 ctx.violation(cls, f'run {k} ({cname}) of [{hs}] observed {res}; the same configuration on an empty cache observes {want}', rep)
     return len(hists), n_runs, n_files, outcomes
 
